@@ -198,7 +198,36 @@ fn pimpact(name: &str, a: &[String]) -> Option<String> {
     })
 }
 
+/// `swapcap.amount <impact pool long> <impact pool short> <is_long_token> <price min> <price max> <usd impact (signed)>` on the real
+/// SwapMarketExt::swap_impact_amount_with_cap through the model crate's own `TestMarket<u128, 20>`.
+fn swapcap(name: &str, a: &[String]) -> Option<String> {
+    use gmsol_model::price::Price;
+    use gmsol_model::test::TestMarket;
+    use gmsol_model::{PoolExt, SwapMarketExt, SwapMarketMut};
+    let n = |i: usize| -> u128 { a[i].parse::<u128>().unwrap() };
+    Some(match name {
+        "amount" => {
+            let mut market = TestMarket::<u128, 20>::default();
+            // the pool takes i128 deltas: feed each amount in two halves
+            for (is_long, v) in [(true, n(0)), (false, n(1))] {
+                let h1 = v / 2;
+                market.swap_impact_pool_mut().ok()?.apply_delta_amount(is_long, &(h1 as i128)).ok()?;
+                market.swap_impact_pool_mut().ok()?.apply_delta_amount(is_long, &((v - h1) as i128)).ok()?;
+            }
+            let price = Price { min: n(3), max: n(4) };
+            match market.swap_impact_amount_with_cap(a[2] == "true", &price, &a[5].parse::<i128>().unwrap()) {
+                Ok((amount, capped)) => format!("Ok({amount},{capped})"),
+                Err(_) => "Err".into(),
+            }
+        }
+        _ => return None,
+    })
+}
+
 pub fn dispatch(name: &str, a: &[String]) -> Option<String> {
+    if let Some(n) = name.strip_prefix("swapcap.") {
+        return swapcap(n, a);
+    }
     if let Some(n) = name.strip_prefix("pimpact.") {
         return pimpact(n, a);
     }
